@@ -34,7 +34,9 @@ RULE = ("cases = (operation, option combination, operand DFAs); quick: seeded ra
         "to_partial/to_complete incl. custom trap names (fresh, taken, equal to the key of a junk row), DFAs over the "
         "empty alphabet, operators | & - ^ ~; sequences of 2–4 calls (to_partial, minify, complement, ~, "
         "to_complete, | & - ^, isempty, isfinite, maximum_word_length, ==, <=) on ONE object kept alive, every result "
-        "evaluated; non-trivial = every operand has ≥2 "
+        "evaluated; the same sequences (after 0–2 unjudged queries, one step often repeated) on operands built under "
+        "allow_mutable_automata=True from PLAIN set/dict containers, every result judged against FROZEN TWINS (the "
+        "definitions as built); non-trivial = every operand has ≥2 "
         "reachable states and the result language is neither empty nor universal; distinct = distinct "
         "(operation, options, encoded operands)")
 ASSUMPTIONS = [
